@@ -130,6 +130,9 @@ pub enum Step {
     InjectAt { idx: usize, mode: usize, probes: Vec<i32> },
     /// `clear_instr_at(loc, mode)`: withdraws what was injected there in that mode
     ClearAt { idx: usize, mode: usize },
+    /// `add_instr_at(loc, op)` called directly, for a location whose mode was selected by an earlier step (`mode`) while another
+    /// location is the current one
+    AddAt { idx: usize, mode: usize, probes: Vec<i32> },
 }
 
 pub const PATHS: &[&str] = &["moditer", "compiter", "modifier"];
@@ -202,7 +205,7 @@ pub fn gen_plan(r: &mut Rng, toks: &[String], allow_special: bool, next_probe: &
         if !plan.is_empty() && r.chance(1, 12) {
             // withdraw an earlier injection (or clear a list nothing was injected into)
             let prev: Vec<(usize, usize)> = plan.iter().filter_map(|s| match s {
-                Step::At { idx, mode, .. } | Step::InjectAt { idx, mode, .. } => Some((*idx, *mode)),
+                Step::At { idx, mode, .. } | Step::InjectAt { idx, mode, .. } | Step::AddAt { idx, mode, .. } => Some((*idx, *mode)),
                 _ => None,
             }).collect();
             let (idx, mode) = if !prev.is_empty() && r.chance(3, 4) { *r.pick(&prev) } else { (r.below(n), r.below(if allow_special { 7 } else { 3 })) };
@@ -226,10 +229,27 @@ pub fn gen_plan(r: &mut Rng, toks: &[String], allow_special: bool, next_probe: &
                     .collect();
                 let idx = if mode >= 3 && (cands.is_empty() || r.chance(1, 25)) { r.below(n) } else { *r.pick(&cands) };
                 let p = probes(r, next_probe);
+                // the mode each instruction was last given by an earlier step
+                let earlier: Vec<(usize, usize)> = {
+                    let mut seen: Vec<(usize, usize)> = vec![];
+                    for s in plan.iter() {
+                        if let Step::At { idx: i, mode: m, .. } | Step::InjectAt { idx: i, mode: m, .. } = s {
+                            seen.retain(|(j, _)| j != i);
+                            seen.push((*i, *m));
+                        }
+                    }
+                    seen.into_iter().filter(|(i, _)| *i != idx).collect()
+                };
                 if kind == 0 {
                     plan.push(Step::At { idx, mode, probes: p });
                 } else {
                     plan.push(Step::InjectAt { idx, mode, probes: p });
+                }
+                // `add_instr_at` on a location selected earlier, while this step's location is the current one
+                if !earlier.is_empty() && n > 1 && r.chance(1, 5) {
+                    let (i0, m0) = *r.pick(&earlier);
+                    let p = probes(r, next_probe);
+                    plan.push(Step::AddAt { idx: i0, mode: m0, probes: p });
                 }
             }
             1 => {
@@ -268,6 +288,44 @@ pub fn gen_plan(r: &mut Rng, toks: &[String], allow_special: bool, next_probe: &
             } else {
                 plan.push(s2);
                 plan.push(s1);
+            }
+        }
+    }
+    // a block alternate next to a block-level probe of the neighbouring construct: the alternate on an `else` (or on a construct)
+    // and a block-exit / block-entry / semantic-after probe on the `if` that owns the `else` (or on the enclosing construct)
+    if allow_special && r.chance(1, 6) && !plan.iter().any(|s| matches!(s, Step::At { mode: 6, .. } | Step::InjectAt { mode: 6, .. } | Step::EmptyBlockAlt { .. })) {
+        let openers: Vec<usize> = (0..n).filter(|i| is_block_style(&toks[*i])).collect();
+        if !openers.is_empty() {
+            let x = *r.pick(&openers);
+            // the construct that contains `x` most closely (for an `else`: its own `if`)
+            let mut skip = 0usize;
+            let mut owner = None;
+            for i in (0..x).rev() {
+                match toks[i].split(':').next().unwrap() {
+                    "end" => skip += 1,
+                    "block" | "loop" | "if" => {
+                        if skip > 0 {
+                            skip -= 1;
+                        } else {
+                            owner = Some(i);
+                            break;
+                        }
+                    }
+                    _ => {}
+                }
+            }
+            if let Some(o) = owner {
+                let pa = probes(r, next_probe);
+                let pb = probes(r, next_probe);
+                let alt = if r.chance(3, 4) { Step::At { idx: x, mode: 6, probes: pa } } else { Step::EmptyBlockAlt { idx: x } };
+                let other = Step::At { idx: o, mode: *r.pick(&[5usize, 5, 4, 3]), probes: pb };
+                if r.chance(1, 2) {
+                    plan.push(alt);
+                    plan.push(other);
+                } else {
+                    plan.push(other);
+                    plan.push(alt);
+                }
             }
         }
     }
@@ -382,6 +440,21 @@ where
                 ops.borrow_mut().push(format!("cl~{idx}~{}", MODES[*mode].0));
                 it.clear_instr_at(loc, im(*mode));
             }
+            Step::AddAt { idx, probes, .. } => {
+                let loc = {
+                    goto(it, *idx);
+                    it.curr_loc().0
+                };
+                // another location is the current one when the call is made
+                goto(it, if *idx == 0 { 1 } else { 0 });
+                for p in probes {
+                    for o in probe_ops(*p) {
+                        // the iterators' add_instr_at is the ordinary add_instr of the addressed function and instruction
+                        ops.borrow_mut().push(format!("i~{idx}~{}", crate::optok::tok_of(&o)));
+                        it.add_instr_at(loc, o);
+                    }
+                }
+            }
             Step::InjectAt { idx, mode, probes } => {
                 goto(it, 0);
                 for p in probes {
@@ -456,6 +529,14 @@ fn apply_modifier<'a>(m: &mut Module<'a>, fid: FunctionID, plan: &[Step], last: 
             Step::ClearAt { idx, mode } => {
                 ops.borrow_mut().push(format!("cl~{idx}~{}", MODES[*mode].0));
                 fm.clear_instr_at(Location::Module { func_idx: fid, instr_idx: *idx }, im(*mode));
+            }
+            Step::AddAt { idx, probes, .. } => {
+                for p in probes {
+                    for o in probe_ops(*p) {
+                        ops.borrow_mut().push(format!("aa~{idx}~{}", crate::optok::tok_of(&o)));
+                        fm.add_instr_at(Location::Module { func_idx: fid, instr_idx: *idx }, o);
+                    }
+                }
             }
             Step::InjectAt { idx, mode, probes } => {
                 for p in probes {
@@ -607,7 +688,7 @@ pub fn max_flagged_per_block(toks: &[String], plan: &[Step]) -> usize {
     let mut counts: HashMap<Option<usize>, usize> = HashMap::new();
     let mut seen = std::collections::HashSet::new();
     for st in plan {
-        if let Step::At { idx, mode: 3, .. } | Step::InjectAt { idx, mode: 3, .. } = st {
+        if let Step::At { idx, mode: 3, .. } | Step::InjectAt { idx, mode: 3, .. } | Step::AddAt { idx, mode: 3, .. } = st {
             if is_branch(&toks[*idx]) && seen.insert(*idx) {
                 for d in branch_targets(&toks[*idx]) {
                     *counts.entry(opener(toks, *idx, d)).or_insert(0) += 1;
@@ -631,7 +712,7 @@ fn spec_c15(toks: &[String], plan: &[Step]) -> Vec<String> {
     let mut alt: Vec<Option<Vec<String>>> = vec![None; n];
     for st in plan {
         match st {
-            Step::At { idx, mode, probes } | Step::InjectAt { idx, mode, probes } => match mode {
+            Step::At { idx, mode, probes } | Step::InjectAt { idx, mode, probes } | Step::AddAt { idx, mode, probes } => match mode {
                 0 => before[*idx].extend(probes_tokens(probes)),
                 1 => after[*idx].extend(probes_tokens(probes)),
                 _ => alt[*idx].get_or_insert_with(Vec::new).extend(probes_tokens(probes)),
@@ -723,7 +804,7 @@ pub fn run(ctx: &mut Ctx) {
             if lowered.plan_ops.is_empty() { "-".to_string() } else { lowered.plan_ops.join(";") }
         ));
         for st in &plan {
-            if let Step::At { mode, .. } | Step::InjectAt { mode, .. } = st {
+            if let Step::At { mode, .. } | Step::InjectAt { mode, .. } | Step::AddAt { mode, .. } = st {
                 ctx.count(&format!("mode={}", MODES[*mode].0));
             }
         }
@@ -737,7 +818,7 @@ pub fn run(ctx: &mut Ctx) {
                 // a rejection at the call is what C22 asks for when the opcode does not take the mode
                 let legit = plan.iter().any(|st| match st {
                     Step::EmptyBlockAlt { idx } => !is_block_style(&toks[*idx]),
-                    Step::At { idx, mode, .. } | Step::InjectAt { idx, mode, .. } => match mode {
+                    Step::At { idx, mode, .. } | Step::InjectAt { idx, mode, .. } | Step::AddAt { idx, mode, .. } => match mode {
                         3 => !(is_block_style(&toks[*idx]) || is_branch(&toks[*idx])),
                         4 | 5 | 6 => !is_block_style(&toks[*idx]),
                         _ => false,
@@ -762,8 +843,8 @@ pub fn run(ctx: &mut Ctx) {
                 }
                 // a lowering of special modes must leave a valid module (nothing in these plans can break validity
                 // except alternates that replace an instruction by probes that do not reproduce its stack effect)
-                let risky = plan.iter().any(|s| matches!(s, Step::At { mode: 2, .. } | Step::InjectAt { mode: 2, .. } | Step::EmptyAlt { .. }
-                    | Step::At { mode: 6, .. } | Step::InjectAt { mode: 6, .. } | Step::EmptyBlockAlt { .. }));
+                let risky = plan.iter().any(|s| matches!(s, Step::At { mode: 2, .. } | Step::InjectAt { mode: 2, .. } | Step::AddAt { mode: 2, .. } | Step::EmptyAlt { .. }
+                    | Step::At { mode: 6, .. } | Step::InjectAt { mode: 6, .. } | Step::AddAt { mode: 6, .. } | Step::EmptyBlockAlt { .. }));
                 if !risky {
                     if let Err(e) = wasmparser::Validator::new_with_features(wasmparser::WasmFeatures::all()).validate_all(b) {
                         if max_flagged_per_block(&toks, &plan) >= 3 {
@@ -784,7 +865,7 @@ pub fn run(ctx: &mut Ctx) {
                         fails.push(("C15", "locals-added-without-special-modes".into(), format!("{added}")));
                     }
                     if wasmparser::Validator::new_with_features(wasmparser::WasmFeatures::all()).validate_all(b).is_err()
-                        && !plan.iter().any(|s| matches!(s, Step::At { mode: 2, .. } | Step::InjectAt { mode: 2, .. } | Step::EmptyAlt { .. }))
+                        && !plan.iter().any(|s| matches!(s, Step::At { mode: 2, .. } | Step::InjectAt { mode: 2, .. } | Step::AddAt { mode: 2, .. } | Step::EmptyAlt { .. }))
                     {
                         fails.push(("C15", "output-invalid".into(), String::new()));
                     }
@@ -797,12 +878,12 @@ pub fn run(ctx: &mut Ctx) {
                         .iter()
                         .enumerate()
                         .filter(|(pos, s)| match s {
-                            Step::At { idx, mode: 6, .. } | Step::InjectAt { idx, mode: 6, .. } | Step::EmptyBlockAlt { idx } => !cleared_later(*pos, *idx, 6),
+                            Step::At { idx, mode: 6, .. } | Step::InjectAt { idx, mode: 6, .. } | Step::AddAt { idx, mode: 6, .. } | Step::EmptyBlockAlt { idx } => !cleared_later(*pos, *idx, 6),
                             _ => true,
                         })
                         .map(|(_, s)| s)
                         .filter_map(|s| match s {
-                            Step::At { idx, mode: 6, .. } | Step::InjectAt { idx, mode: 6, .. } | Step::EmptyBlockAlt { idx } => {
+                            Step::At { idx, mode: 6, .. } | Step::InjectAt { idx, mode: 6, .. } | Step::AddAt { idx, mode: 6, .. } | Step::EmptyBlockAlt { idx } => {
                                 match_end(&toks, *idx).map(|e| (*idx, e))
                             }
                             _ => None,
@@ -813,7 +894,7 @@ pub fn run(ctx: &mut Ctx) {
                         if let Step::Func { .. } = st {
                             func_mode_seen = true;
                         }
-                        if let Step::At { idx, mode, probes } | Step::InjectAt { idx, mode, probes } = st {
+                        if let Step::At { idx, mode, probes } | Step::InjectAt { idx, mode, probes } | Step::AddAt { idx, mode, probes } = st {
                             if *mode < 3 {
                                 continue;
                             }
@@ -837,6 +918,7 @@ pub fn run(ctx: &mut Ctx) {
                                 if !out.contains(&t) {
                                     let via = match st {
                                         Step::InjectAt { .. } => "inject_at",
+                                        Step::AddAt { .. } => "add_instr_at",
                                         _ => "inject",
                                     };
                                     let target = if toks[*idx].starts_with("br") {
@@ -885,11 +967,68 @@ pub fn run(ctx: &mut Ctx) {
                     // C21: a single block-alternate on a block/loop/if with nothing else in the plan touching the region
                     let alts: Vec<&Step> = plan
                         .iter()
-                        .filter(|s| matches!(s, Step::At { mode: 6, .. } | Step::InjectAt { mode: 6, .. } | Step::EmptyBlockAlt { .. }))
+                        .filter(|s| matches!(s, Step::At { mode: 6, .. } | Step::InjectAt { mode: 6, .. } | Step::AddAt { mode: 6, .. } | Step::EmptyBlockAlt { .. }))
                         .collect();
+                    // C21 with other modes around: the same plan without the block alternate, encoded by the crate, is the reference;
+                    // the replacement must stand exactly where the construct stands in it and nothing else may differ. Eligible: one
+                    // block alternate; no other step on the construct, inside it or on its matching `end`; nothing in the plan that
+                    // adds or removes structural tokens (flag checks of branch probes, the function-exit wrapper, alternates on
+                    // structural tokens), so that the k-th structural token of the reference is the k-th of the original.
+                    if alts.len() == 1 && plan.len() > 1 {
+                        let (idx, repl) = match alts[0] {
+                            Step::At { idx, probes, .. } | Step::InjectAt { idx, probes, .. } | Step::AddAt { idx, probes, .. } => (*idx, probes_tokens(probes)),
+                            Step::EmptyBlockAlt { idx } => (*idx, vec![]),
+                            _ => unreachable!(),
+                        };
+                        if let (true, Some(e)) = (is_block_style(&toks[idx]), match_end(&toks, idx)) {
+                            let touches = |i: usize| i >= idx && i <= e;
+                            let mut nalt = 0;
+                            let eligible = plan.iter().all(|s| match s {
+                                Step::At { idx: i, mode, .. } | Step::InjectAt { idx: i, mode, .. } | Step::AddAt { idx: i, mode, .. } => {
+                                    if *mode == 6 {
+                                        nalt += 1;
+                                        true
+                                    } else {
+                                        !touches(*i) && !(*mode == 3 && is_branch(&toks[*i])) && !(*mode == 2 && is_structural(&toks[*i]))
+                                    }
+                                }
+                                Step::EmptyBlockAlt { .. } => {
+                                    nalt += 1;
+                                    true
+                                }
+                                Step::EmptyAlt { idx: i } => !touches(*i) && !is_structural(&toks[*i]),
+                                Step::ClearAt { idx: i, .. } => !touches(*i),
+                                Step::Func { exit, .. } => !*exit,
+                            }) && nalt == 1;
+                            if eligible {
+                                let plan_ref: Vec<Step> = plan
+                                    .iter()
+                                    .filter(|s| !matches!(s, Step::At { mode: 6, .. } | Step::InjectAt { mode: 6, .. } | Step::AddAt { mode: 6, .. } | Step::EmptyBlockAlt { .. }))
+                                    .cloned()
+                                    .collect();
+                                let reference = instrument(&wat, 0, nimp, path, &plan_ref, toks.len(), nlocals_decl);
+                                if let Ok((ref_out, _, _, _)) = &reference.out {
+                                    let k = toks[..idx].iter().filter(|t| is_structural(t)).count();
+                                    let pos: Vec<usize> = (0..ref_out.len()).filter(|i| is_structural(&ref_out[*i])).collect();
+                                    if let Some(p_open) = pos.get(k).copied() {
+                                        if let Some(p_end) = match_end(ref_out, p_open) {
+                                            let is_else = toks[idx] == "else";
+                                            let mut want: Vec<String> = ref_out[..p_open].to_vec();
+                                            want.extend(repl);
+                                            want.extend(ref_out[if is_else { p_end } else { p_end + 1 }..].iter().cloned());
+                                            ctx.count("c21-oracle=reference-splice");
+                                            if *out != want {
+                                                fails.push(("C21", "block-alt-differs-from-spliced-reference".into(), format!("got {} want {}", out.join(","), want.join(","))));
+                                            }
+                                        }
+                                    }
+                                }
+                            }
+                        }
+                    }
                     if alts.len() == 1 && plan.len() == 1 {
                         let (idx, repl) = match alts[0] {
-                            Step::At { idx, probes, .. } | Step::InjectAt { idx, probes, .. } => (*idx, probes_tokens(probes)),
+                            Step::At { idx, probes, .. } | Step::InjectAt { idx, probes, .. } | Step::AddAt { idx, probes, .. } => (*idx, probes_tokens(probes)),
                             Step::EmptyBlockAlt { idx } => (*idx, vec![]),
                             _ => unreachable!(),
                         };
